@@ -5,7 +5,7 @@ import zlib
 
 from ..docmodel import word
 
-RTF_SUPPORTS = {"r.acc", "r.num", "p", "h", "tbl", "r", "tab", "br", "del", "fn", "cm", "header", "footer"}
+RTF_SUPPORTS = {"r.acc", "r.num", "p", "h", "tbl", "r", "tab", "br", "sp", "del", "fn", "cm", "header", "footer"}
 
 
 # ----------------------------------------------------------------------------- RTF
@@ -39,6 +39,8 @@ def _rtf_inl(inls) -> str:
             out.append(_rtf_word(i[1]))
         elif t == "tab":
             out.append("\\tab ")
+        elif t == "sp":          # a blank between two formatted runs: {\b A} {\i B}
+            out.append(" ")
         elif t == "br":
             out.append("\\line ")
         elif t == "del":
